@@ -82,6 +82,34 @@ func All(verif, prop string) []Variant {
 		}
 		out = append(out, Variant{Name: "seeded/" + filepath.Base(d), Prop: prop, Breaks: true, Patch: filepath.Join(d, "patch.diff"), Why: "seeded change confirmed to break the property (sub-agent + independent confirmation)"})
 	}
+	// behaviour-preserving refactorings written by sub-agents (DESIGN §8.1): the property's own, plus those written
+	// around another property that once raised an alarm under this one (tools/preserving*/extra.json)
+	seen := map[string]bool{}
+	addPreserving := func(path string) {
+		if seen[path] {
+			return
+		}
+		seen[path] = true
+		rel, _ := filepath.Rel(filepath.Join(verif, "tools"), path)
+		out = append(out, Variant{Name: "preserving/" + strings.TrimSuffix(rel, ".diff"), Prop: prop, Breaks: false, Patch: path, Why: "behaviour-preserving refactoring by a sub-agent (built and tested in its worktree)"})
+	}
+	rounds, _ := filepath.Glob(filepath.Join(verif, "tools", "preserving*"))
+	sort.Strings(rounds)
+	for _, rd := range rounds {
+		own, _ := filepath.Glob(filepath.Join(rd, prop, "p*.diff"))
+		sort.Strings(own)
+		for _, pf := range own {
+			addPreserving(pf)
+		}
+		if b, err := os.ReadFile(filepath.Join(rd, "extra.json")); err == nil {
+			var extra map[string][]string
+			if json.Unmarshal(b, &extra) == nil {
+				for _, e := range extra[prop] {
+					addPreserving(filepath.Join(rd, e+".diff"))
+				}
+			}
+		}
+	}
 	return out
 }
 
